@@ -22,7 +22,7 @@ DISTS = [('Exponential', 1), ('Bernoulli', 1), ('Gamma', 2), ('LogNormal', 2),
          ('EasyAndCertain', 0), ('HardAndUncertain', 0), ('VeryHardAndCertain', 0),
          ('Infinity', 0), ('Zero', 0)]
 NUMS = [0.0, 1.0, 2.0, 3.0, 0.5, 0.25, 0.1, 10.0, 100.0, 0.125, 7.0, 42.0, 0.75]
-MULTS = [(0, 1), (1, 1), (0, None), (1, None), (0, None)]
+MULTS = [(0, 1), (1, 1), (0, None), (1, None), (0, None), (0, 2), (1, 3), (2, 2), (2, 4)]
 TAGS = ['hidden', 'debug', 'trace', 'suppress', 't1']
 
 
@@ -90,8 +90,11 @@ class LangGen:
         assets.sort(key=lambda a: cats.index(a['category']))
         spec = {
             'formatVersion': '1.0.0',
-            'defines': {'id': 'org.mtv.gen%d' % rng.randrange(10 ** 6),
-                        'version': '%d.%d.%d' % (rng.randint(0, 3), rng.randint(0, 9), rng.randint(0, 9))},
+            # half of the languages share one id and version (as the two shipped coreLang
+            # variants do): nothing may be keyed by them
+            'defines': ({'id': 'org.mtv.lang', 'version': '1.0.0'} if rng.random() < 0.5 else
+                        {'id': 'org.mtv.gen%d' % rng.randrange(10 ** 6),
+                         'version': '%d.%d.%d' % (rng.randint(0, 3), rng.randint(0, 9), rng.randint(0, 9))}),
             'categories': [{'name': c, 'meta': self._meta()} for c in cats],
             'assets': assets,
             'associations': [],
@@ -263,16 +266,17 @@ class LangGen:
         if not cfg.variables:
             return
         order = sorted(lang.order, key=lambda t: lang.depth(t))
-        vid = 0
+        vid = {}      # per inheritance tree: names never shadow inside a tree, but unrelated trees reuse them
         for t in order:
             a = next(x for x in spec['assets'] if x['name'] == t)
+            root = lang.ancestors(t)[-1]
             for _ in range(rng.choice([0, 0, 1, 1, 2])):
                 self.lang = Lang(spec, snapshot=False)
                 e = self._gen_nav(t, rng.randint(0, cfg.max_depth), allow_var=True)
                 if e is None:
                     continue
-                a['variables'].append({'name': 'v%d' % vid, 'stepExpression': e[0]})
-                vid += 1
+                a['variables'].append({'name': 'v%d' % vid.get(root, 0), 'stepExpression': e[0]})
+                vid[root] = vid.get(root, 0) + 1
 
     # ------------------------------------------------------------------
     def _gen_expressions(self):
